@@ -559,7 +559,7 @@ func main() {
 				s = ""
 				k := 4 + r.Intn(12)
 				pool := append([]rune{}, litAlphabet...)
-				pool = append(pool, 'b', 'x', '0', '7', 'u', 'n', 0x1F600, 0x7f, 0x85, 0x2028, 7, 8, 11, 12, '/', '*', ';', '<', '>', '&')
+				pool = append(pool, 'b', 'x', '0', '7', 'u', 'n', 0x1F600, 0x7f, 0x85, 0x2028, 7, 8, 11, 12, '/', '*', ';', '<', '>', '&', 0xFFFD, 0xFEFF, 0x10FFFF, 0xE000, 0xD7FF, 0x80, 0xA0, 0x7FF, 0x800, 0xFFFF)
 				for j := 0; j < k; j++ {
 					s += string(pool[r.Intn(len(pool))])
 				}
